@@ -34,9 +34,9 @@ CHECKS["C16"] = dict(
 )
 CHECKS["C11"] = dict(
     category="proof",
-    text="Coq model of db.go/ldb (ordered byte-key store, write transaction = op log + the code's own put/delete/seq summary, bucket path encoding, iterators, BytesPrefix) with 41 theorems over all op sequences and all byte strings: commit = whole log or nothing, read-your-writes for point/prefix reads, key encoding injective across buckets (isolation), prefix scans stay in their bucket, read-only iteration/seek exact and strictly ascending, BytesPrefix exact incl. 0xff prefixes; iterators of write transactions: Seek/Next never leave the range (repaired: 25fb027, closed witness for the code as found) and yield exactly the committed entries of the range followed by the transaction's net puts, each run ascending (C11_seek_write_tx) — which is the transaction's view only when it has not touched the range (closed counterexample C11_write_iter_not_view_refuted: the recorded finding); tied to the code by ~2000 random op sequences (148k ops) per quick run on a real LevelDB, replayed on the extracted model, plus a Go map as second oracle; failing sequences are shrunk.",
+    text="Coq model of db.go/ldb (ordered byte-key store, write transaction = op log + the code's own put/delete/seq summary, bucket path encoding, iterators, BytesPrefix) with 42 theorems over all op sequences and all byte strings: commit = whole log or nothing, read-your-writes for point/prefix reads, key encoding injective across buckets (isolation), prefix scans stay in their bucket, read-only iteration/seek exact and strictly ascending, BytesPrefix exact incl. 0xff prefixes; iterators of write transactions yield exactly the entries of the transaction's own view in the range, from the seek key on, strictly ascending, each once, for any pending batch (C11_write_iter_is_view; the merging iterator of /repo 160bde9, after 25fb027 for Seek below the range start; closed witnesses C11_write_iter_not_view_refuted and C11_seek_below_range_unfixed_refuted for the code as found); tied to the code by ~2000 random op sequences (148k ops) per quick run on a real LevelDB, replayed on the extracted model, plus a Go map as second oracle; failing sequences are shrunk.",
     design_ref="DESIGN.md section 5, C11",
-    note="Trusted: Coq kernel (no axioms), ExtrOcamlBasic + driver, Go harness + its reference map; goleveldb Get/Write/iterator snapshots and durability are environment (exercised by reopen steps). Bucket-listing theorem is partial (index well-formedness invariant not proved); iterators of write transactions are judged by the reference map against the transaction's view (the design's two-run listing = known finding write-tx-iterator-not-view; anything else = violation) as long as the transaction writes nothing after creating them; Bucket() after DeleteBucket and NewBucket twice are modelled and diffed but outside the property text.",
+    note="Trusted: Coq kernel (no axioms), ExtrOcamlBasic + driver, Go harness + its reference map; goleveldb Get/Write/iterator snapshots and durability are environment (exercised by reopen steps). Bucket-listing theorem is partial (index well-formedness invariant not proved); iterators of write transactions are judged by the reference map against the transaction's view as long as the transaction writes nothing after creating them (the two-run listing of the code before 160bde9 would be reported under the key write-tx-iterator-not-view, which is no longer a known finding); Bucket() after DeleteBucket and NewBucket twice are modelled and diffed but outside the property text.",
     technique="Coq proof (invariant by induction over operation logs, encoding injectivity, iteration exactness) + extracted-model differential correspondence on a real LevelDB + reference-map oracle",
 )
 CHECKS["C13"] = dict(
